@@ -1,7 +1,7 @@
 #!/bin/bash
 # usage: seed_verify.sh <prop> <k>   - confirm a seeded change in the scratch worktree /tmp/wt_<prop>:
 #   demo passes on HEAD, existing suite passes with the patch, demo fails with the patch
-P=$1; K=$2; WT=/tmp/wt_$P; OUT=/tmp/seed_out/$P/$K
+P=$1; K=$2; WT=${SEED_WT:-/tmp/wt_$P}; OUT=${SEED_OUT:-/tmp/seed_out}/$P/$K
 cd $WT || exit 2
 git checkout -q -- . ; rm -f tests/seed_demo*.rs
 for f in $OUT/*.rs; do cp $f tests/; done
